@@ -213,7 +213,33 @@ def scope(e):
     raise TypeError(type(e))
 
 
+def marked_only_sum_index(e) -> bool:
+    """True if some Sum ranges over a name that its summand mentions only as a '+'-marked value (e.g. Sum[A](P(+A))).
+
+    Whether such a sum ranges over the marked occurrence is not defined by the notation (the evaluator keeps +A literal,
+    y0 treats it as the variable); such expressions are outside every judged family."""
+    from .semantics import walk
+
+    for node in walk(e):
+        if isinstance(node, Sum):
+            names = {r.name for r in node.ranges}
+            occ = {}
+            for sub in walk(node.expression):
+                if isinstance(sub, Probability):
+                    for v in itt.chain(sub.children, sub.parents):
+                        occ.setdefault(v.name, set()).add(v.star)
+                        if isinstance(v, CounterfactualVariable):
+                            for i in v.interventions:
+                                occ.setdefault(i.name, set()).add(i.star)
+            for n in names:
+                if n in occ and occ[n] == {True}:
+                    return True
+    return False
+
+
 def is_well_scoped(e) -> bool:
+    if marked_only_sum_index(e):
+        return False
     try:
         scope(e)
         return True
@@ -316,6 +342,9 @@ def atoms(alpha, family="calc"):
                 Fraction(P(A) * P(A) * P(B), P(A) * P(C)),
                 Sum[A](P(A, B | C)),
                 Sum[B](P(A, B | C)),
+                # counterfactual variables that differ only in their own value mark (anything keyed on text must keep it)
+                P((+A) @ C),
+                P((-A) @ C),
             ]
         return base
     if family == "print":
@@ -351,6 +380,11 @@ def atoms(alpha, family="calc"):
                 Sum[B](P(A, B | C)),
                 Q[A](B, C),
                 Q[A](B, D),
+                # a conditional distribution conditioned again on a joint (parents arrive out of name order)
+                P(A | D | B & C),
+                # Q-factors over intervened variables
+                Q[A](B @ C, D),
+                Q[A @ (+C)](B),
             ]
         return base
     raise ValueError(family)
@@ -379,6 +413,14 @@ def menu(e, atom_list, tier, with_raw=True, public_only=False):
         yield "sum", f"Sum[{rn}](e)", (lambda r=r: Sum[r](e)), ("sum", r)
         yield "marginalize", f"e.marginalize({rn})", (lambda r=r: e.marginalize(r)), ("sum", r)
         yield "conditional", f"e.conditional({rn})", (lambda r=r: e.conditional(r)), ("cond", r)
+    if not isinstance(e, Probability):
+        # conditions written the way they occur in the expression (intervened or value-marked), not as plain variables
+        occurring = sorted(
+            {v for v in e.get_variables() if not isinstance(v, Intervention) and (isinstance(v, CounterfactualVariable) or v.star is not None)},
+            key=str,
+        )
+        for v in occurring[:3]:
+            yield "conditional", f"e.conditional(<{v}>)", (lambda v=v: e.conditional(v)), ("cond", (Variable(v.name),))
     if public_only:
         return
     if isinstance(e, Fraction):
@@ -395,6 +437,11 @@ def menu(e, atom_list, tier, with_raw=True, public_only=False):
         yield "bayes_expand", "bayes_expand(e)", (lambda: bayes_expand(e)), ("id",)
         yield "chain_expand", "chain_expand(e)", (lambda: chain_expand(e)), ("id_markov",)
         yield "chain_expand", "chain_expand(e,reorder=False)", (lambda: chain_expand(e, reorder=False)), ("id_markov",)
+        if e.parents:
+            # an explicit ordering only has to cover the children; the conditions come along whatever it says
+            kids = sorted(e.children, key=lambda v: v.name)
+            for label, oo in (("children", kids), ("children-reversed", kids[::-1])):
+                yield "chain_expand", f"chain_expand(e,ordering={label})", (lambda oo=oo: chain_expand(e, ordering=oo)), ("id_markov",)
         own = [v for v in e.get_variables() if not isinstance(v, Intervention)]
         for o in ORDERINGS[:: (1 if tier == "thorough" else 5)]:
             on = ",".join(v.name for v in o)
